@@ -49,6 +49,67 @@ theorem run_append {α : Type} (m : Rand α) : ∀ (t : List Ans) (a : α) (rest
     | nil => simp [Rand.run] at h
     | cons x r => simp only [Rand.run, List.cons_append] at h ⊢; exact ih x r a rest h extra
 
+/-! ### repeated / interleaved call histories on one generator -/
+
+/-- a history of calls on one generator: every call starts where the one before stopped -/
+def runAll {α : Type} : List (Rand α) → List Ans → Option (List α × List Ans)
+  | [], t => some ([], t)
+  | m :: ms, t =>
+    match m.run t with
+    | none => none
+    | some (a, t') =>
+      match runAll ms t' with
+      | none => none
+      | some (as, t'') => some (a :: as, t'')
+
+/-- A history is the concatenation of its parts: the second part sees exactly the generator state the first part
+    left - nothing else of the first part (operators and generators are values; they keep no memory of earlier calls). -/
+theorem history_append {α : Type} (ms₁ ms₂ : List (Rand α)) : ∀ t : List Ans,
+    runAll (ms₁ ++ ms₂) t =
+      match runAll ms₁ t with
+      | none => none
+      | some (as, t') =>
+        match runAll ms₂ t' with
+        | none => none
+        | some (bs, t'') => some (as ++ bs, t'') := by
+  induction ms₁ with
+  | nil => intro t; simp only [List.nil_append, runAll]; cases runAll ms₂ t with
+    | none => rfl
+    | some r => obtain ⟨bs, t''⟩ := r; rfl
+  | cons m ms ih =>
+    intro t
+    simp only [List.cons_append, runAll]
+    cases hm : m.run t with
+    | none => rfl
+    | some r =>
+      obtain ⟨a, t'⟩ := r
+      simp only []
+      rw [ih t']
+      cases runAll ms t' with
+      | none => rfl
+      | some r2 =>
+        obtain ⟨as, t2⟩ := r2
+        simp only []
+        cases runAll ms₂ t2 with
+        | none => rfl
+        | some r3 => obtain ⟨bs, t3⟩ := r3; simp
+
+/-- **History independence**: whatever two histories were run before - different calls, different numbers of calls -,
+    if they leave the generator in the same state, the next call gives the same result and leaves the same state. -/
+theorem next_call_depends_on_state_only {α : Type} (pre₁ pre₂ : List (Rand α)) (m : Rand α) (t₁ t₂ t : List Ans)
+    (r₁ r₂ : List α) (h₁ : runAll pre₁ t₁ = some (r₁, t)) (h₂ : runAll pre₂ t₂ = some (r₂, t)) :
+    (runAll (pre₁ ++ [m]) t₁).map (fun x => (x.1.getLast?, x.2)) =
+    (runAll (pre₂ ++ [m]) t₂).map (fun x => (x.1.getLast?, x.2)) := by
+  rw [history_append, history_append, h₁, h₂]
+  simp only [runAll]
+  cases m.run t with
+  | none => rfl
+  | some r => obtain ⟨a, t'⟩ := r; simp
+
+/-- non-vacuity: two different histories that leave the same state, then the same call -/
+example : runAll [Rand.req .bool, Rand.req .bool] [.bool true, .bool false, .nat 5] =
+    some ([.bool true, .bool false], [.nat 5]) := rfl
+
 /-! ### Push: evaluation is a function of program, input values and limits -/
 
 /-- **Independence of the declaration order.** Two states that differ only in their input bindings,
